@@ -538,17 +538,48 @@ def run(cx):
     g = l2.global_decls(pe.emit_program(setup=[l2.lcd_decl("parallel", True)], loop=[]).text)
     r.check(g.get(BR, ("", ""))[1] == "255" and g.get(STV, ("", ""))[1] == "true", "LCDDecl/backlight-starts-on-at-255", (em, em.func("emit")), f"initial backlight shadow: {g.get(BR)}, {g.get(STV)}")
     hb = hm.func("LCD.brightness")
-    r.check("not 0 <= int(level) <= 255" in norm(hb), "LCD.brightness/host-range-0..255", (hm, hb), "host brightness range check changed")
+    from . import c04 as _c04
+    for lv_, want_ in ((0, 0), (1, 1), (128, 128), (255, 255), (254.9, 254), (-1, "ValueError"), (256, "ValueError"), (1000, "ValueError"), (-0.5, 0)):
+        o_ = _c04.host_object(hm, "LCD", rs=12, en=11, d4=5, d5=4, d6=3, d7=2, backlight_pin=10)
+        try:
+            out_ = dl.Interp(hm).call(hb, [o_, lv_])
+        except dl.Unsupported as e:
+            raise AnalysisError(f"host LCD.brightness left the evaluable subset: {e}")
+        okb = (out_.kind == "raise" and out_.value == "ValueError") if want_ == "ValueError" else (out_.kind == "return" and getattr(o_, "brightness_level", None) == want_)
+        r.check(okb, "LCD.brightness/host-range-0..255", (hm, hb), f"host brightness({lv_!r}) -> {out_!r}, level {getattr(o_, 'brightness_level', None)!r}; expected {want_!r} (levels are int(level) within 0..255, everything else is refused)")
 
     # ---- C17-GLYPH ---------------------------------------------------------------------------
     r = cx.rule("C17-GLYPH", "custom glyphs carry exactly eight rows masked to 5 bits on both sides, slot cast to uint8_t", floor=3)
     res = pe.emit_program(setup=[l2.lcd_decl("i2c"), cls["LCDGlyph"](name="dev", slot="H_slot", bitmap=[1, 2, 3, 4, 5, 6, 7, 40])], loop=[])
-    okg = "uint8_t __redu_lcd_glyph_dev_1[8] = {1, 2, 3, 4, 5, 6, 7, 8};" in res.text and "__redu_lcd_dev.createChar(static_cast<uint8_t>(H_slot), __redu_lcd_glyph_dev_1);" in res.text
-    r.check(okg, "LCDGlyph/eight-rows-masked-5-bits", (em, eb), "glyph upload must declare uint8_t[8] with every row & 0x1F and pass the slot as uint8_t")
+    arr = re.search(r"uint8_t\s+(\w+)\s*\[\s*8\s*\]\s*=\s*\{([^}]*)\}", res.text or "")
+    vals = [int(x, 0) for x in re.findall(r"0[xX][0-9a-fA-F]+|\d+", arr.group(2))] if arr else None
+    up = re.search(r"createChar\(\s*static_cast<uint8_t>\(\s*H_slot\s*\)\s*,\s*(\w+)\s*\)", res.text or "")
+    okg = arr is not None and vals == [1, 2, 3, 4, 5, 6, 7, 8] and up is not None and up.group(1) == arr.group(1)
+    r.check(okg, "LCDGlyph/eight-rows-masked-5-bits", (em, eb), f"glyph upload must declare uint8_t[8] with every row & 0x1F ({vals}) and pass the slot as uint8_t with that array")
+    # host: evaluated - eight (or more) rows are stored as their first eight values masked to 5 bits, fewer are refused, the
+    # slot must be 0..7
+    from . import c04
     hg = hm.func("LCD.glyph")
-    r.check("[int(value) & 31 for value in bitmap][:8]" in norm(hg) and "len(values) != 8" in norm(hg), "LCD.glyph/host-eight-rows-masked", (hm, hg), "host glyph storage changed")
-    pg = [n for n in walk_local(psl) if isinstance(n, ast.If) and norm(n.test) == "len(bitmap_list) != 8" and any(isinstance(x, ast.Raise) for x in n.body)]
-    r.check(len(pg) == 1, "parser.glyph/requires-eight-rows", (pm, psl), "the parser must reject bitmaps that do not have 8 rows")
+    for slot_, bitmap_, want_ in ((1, [1, 2, 3, 4, 5, 6, 7, 40], [1, 2, 3, 4, 5, 6, 7, 8]), (0, [255] * 8, [31] * 8), (7, [32, 33, 0, 31, 64, 95, 1, 2], [0, 1, 0, 31, 0, 31, 1, 2]),
+                                  (2, [1] * 7, "ValueError"), (2, [], "ValueError"), (8, [0] * 8, "ValueError"), (-1, [0] * 8, "ValueError")):
+        o = c04.host_object(hm, "LCD", rs=12, en=11, d4=5, d5=4, d6=3, d7=2)
+        try:
+            out = dl.Interp(hm).call(hg, [o, slot_, list(bitmap_)])
+        except dl.Unsupported as e:
+            raise AnalysisError(f"host LCD.glyph left the evaluable subset: {e}")
+        if want_ == "ValueError":
+            okh = out.kind == "raise" and out.value == "ValueError"
+        else:
+            okh = out.kind == "return" and list(getattr(o, "glyphs", {}).get(slot_, [])) == want_
+        r.check(okh, "LCD.glyph/host-eight-rows-masked", (hm, hg), f"host glyph({slot_}, {bitmap_}) -> {out!r}, stored {getattr(o, 'glyphs', {}).get(slot_)}; expected {want_}")
+    # parser: a bitmap literal that does not have eight rows is refused
+    for n_rows, accept in ((8, True), (7, False), (9, False), (0, False)):
+        src_ = f"from Reduino.Displays import LCD\nlcd = LCD(i2c_addr=0x27)\nlcd.glyph(1, {[1] * n_rows})\nwhile True:\n    z0 = 0\n"
+        try:
+            _it, outp = pe.parse_source(src_)
+        except dl.Unsupported as e:
+            raise AnalysisError(f"parse() left the evaluable subset on a glyph script: {e}")
+        r.check((outp.kind == "return") if accept else (outp.kind == "raise" and outp.value == "ValueError"), f"parser.glyph/requires-eight-rows[{n_rows}]", (pm, psl), f"lcd.glyph(1, <{n_rows} rows>): parse() -> {outp.kind}:{outp.value if outp.kind != 'return' else 'program'}; {'eight rows must be accepted' if accept else 'the parser must reject bitmaps that do not have 8 rows'}")
 
     # ---- C17-PROGRESS ------------------------------------------------------------------------
     r = cx.rule("C17-PROGRESS", "device fill = value*width/max_value computed after clamping value to 0..max_value, width to 1..cols and max_value >= 1 (monotone, saturating); host uses round(ratio*width) with the same clamps", floor=6)
